@@ -647,3 +647,89 @@ SUBCHECKS = [
              required_labels=['{}/{}'.format(t, f) for t in R.TYPES for f in ('gml', 'dot')] +
              ['exact', 'mutated', 'rejected', 'shuffled-nodes', '>=10-vertices', 'dag-rejected']),
 ]
+
+
+# ---------------------------------------------------------------------------
+# large graphs (size thresholds of buffers / block writers and readers); added after a seeded DIMACS
+# formula writer change that only misbehaved above 4096 lines
+
+def run_roundtrip_large(case):
+    from cnfgen.graphs import Graph, DirectedGraph, BipartiteGraph, readGraph, writeGraph
+    gtype, fmt, n, m = case['gtype'], case['fmt'], case['n'], case['m']
+    x = case['salt']
+    edges = set()
+    if gtype == 'bipartite':
+        L, Rr = n, n + 7
+        G = BipartiteGraph(L, Rr)
+        while len(edges) < min(m, L * Rr):
+            x = (x * 1103515245 + 12345) & 0x7FFFFFFF
+            u = x % L + 1
+            v = (x >> 11) % Rr + 1
+            if (u, v) not in edges:
+                edges.add((u, v))
+                G.add_edge(u, v)
+    else:
+        G = Graph(n) if gtype == 'simple' else DirectedGraph(n)
+        while len(edges) < m:
+            x = (x * 1103515245 + 12345) & 0x7FFFFFFF
+            u = x % n + 1
+            v = (x >> 11) % n + 1
+            if u == v:
+                continue
+            if gtype != 'digraph':
+                u, v = min(u, v), max(u, v)
+            if (u, v) not in edges:
+                edges.add((u, v))
+                G.add_edge(u, v)
+    want = sorted(edges)
+    what = "{} graph with {} vertices and {} edges in {} format".format(gtype, G.number_of_vertices(), len(want), fmt)
+    buf = io.StringIO()
+    writeGraph(G, buf, gtype, fmt)
+    text = buf.getvalue()
+    H = readGraph(io.StringIO(text), gtype, fmt)
+    if H.number_of_vertices() != G.number_of_vertices() or sorted(H.edges()) != want:
+        raise Violation("{}: the round trip changes the graph ({} vertices, {} edges read back)".format(what, H.number_of_vertices(), H.number_of_edges()))
+    if gtype == 'bipartite' and (H.left_order(), H.right_order()) != (G.left_order(), G.right_order()):
+        raise Violation("{}: the sides change to ({},{})".format(what, H.left_order(), H.right_order()))
+    if fmt in ('kthlist', 'dimacs', 'matrix'):
+        # the written text, read by the reference reader, is the graph
+        if fmt == 'matrix':
+            rows = [l.split() for l in text.splitlines() if l.strip() and not l.startswith('#')]
+            got = sorted((i, j + 1) for i, r in enumerate(rows[1:], start=1) for j, b in enumerate(r) if b == '1')
+            if got != want or rows[0] != [str(G.left_order()), str(G.right_order())]:
+                raise Violation("{}: the matrix text does not describe the graph".format(what))
+        elif fmt == 'dimacs':
+            es = sorted(tuple(int(t) for t in l.split()[1:3]) for l in text.splitlines() if l.startswith('e'))
+            if gtype != 'digraph':
+                es = sorted((min(a, b), max(a, b)) for a, b in es)
+            if es != want:
+                raise Violation("{}: the DIMACS text does not describe the graph ({} edge lines)".format(what, len(es)))
+    d = tempfile.mkdtemp(prefix='c14L_')
+    try:
+        path = os.path.join(d, 'g.' + fmt)
+        writeGraph(G, path, gtype, fmt)
+        K = readGraph(path, gtype, fmt)
+        if K.number_of_vertices() != G.number_of_vertices() or sorted(K.edges()) != want:
+            raise Violation("{}: the round trip through a file changes the graph".format(what))
+    finally:
+        shutil.rmtree(d, ignore_errors=True)
+    return Outcome(labels=[gtype, fmt, 'edges>=4096' if len(want) >= 4096 else 'edges<4096'], nontrivial=True)
+
+
+def enum_roundtrip_large(tier):
+    i = 0
+    sizes = [(150, 4097), (300, 4096)] if tier == 'quick' else [(150, 4095), (150, 4096), (150, 4097), (300, 8193), (400, 20000)]
+    for gtype, fmts in (('simple', ['kthlist', 'dimacs', 'gml']), ('digraph', ['kthlist', 'dimacs', 'gml']),
+                        ('dag', ['kthlist', 'dimacs']), ('bipartite', ['kthlist', 'matrix', 'gml'])):
+        for fmt in fmts:
+            for n, m in sizes:
+                i += 1
+                if fmt == 'gml' and m > 9000:
+                    continue
+                yield {'gtype': gtype, 'fmt': fmt, 'n': n if gtype != 'bipartite' else max(70, n // 2), 'm': m, 'salt': i}
+
+
+SUBCHECKS.append(
+    SubCheck('roundtrip_large', run_roundtrip_large, enumerate_cases=enum_roundtrip_large,
+             rule="pseudo-random simple/directed/acyclic/bipartite graphs with 150-400 vertices and 4095..20000 edges written and read back (StringIO and file) in kthlist, dimacs, matrix and gml; oracle: same vertices, sides and edges; in-house formats also parsed by the harness; non-trivial: all",
+             required_labels=['edges>=4096', 'simple', 'bipartite', 'dag']))
